@@ -245,7 +245,7 @@ def gen_docs(ctx, rnd):
         out.append(("valid", b"[" + n + b"]"))
     for lab, d in TOP_LEVEL_BAD:
         out.append((lab, d))
-    nvalid = 4000 if ctx.quick else 100000
+    nvalid = 4000 if ctx.quick else 70000
     ncorr = 150 if ctx.quick else 1200          # rounds over the corruption catalogue
     for _ in range(nvalid):
         g = Doc(rnd)
@@ -378,7 +378,7 @@ def gen_values(ctx, rnd):
         s = repr(f)
         out.append(("float", "(%s)" % s if s.startswith("-") else s))
     g = ValGen(rnd)
-    for _ in range(4000 if ctx.quick else 80000):
+    for _ in range(4000 if ctx.quick else 60000):
         out.append(("random", g.value(rnd.choice([0, 0, 1, 2, 3, 4, 6]))))
     for cp in list(range(0, 0x80)) + BMP + ASTRAL:      # every ASCII character on its own and inside a word
         out.append(("string", star_str(chr(cp))))
